@@ -100,10 +100,19 @@ class Bindings:
         """
         Get the hardware configuration for a given Einsum
         """
+        # Note: an Einsum with no entry in the bindings has no config either
+        if einsum not in self.configs:
+            raise ValueError(
+                "Accelerator config and prefix missing for Einsum " + einsum)
+
         return self.configs[einsum]
 
     def get_prefix(self, einsum: str) -> str:
         """
         Get the metrics prefix for the given Einsum
         """
+        if einsum not in self.prefixes:
+            raise ValueError(
+                "Accelerator config and prefix missing for Einsum " + einsum)
+
         return self.prefixes[einsum]
